@@ -397,7 +397,7 @@ struct Unit {
     salt: usize,
     shape: Shape,
     api: Api,
-    first: usize,
+    prefix: Vec<usize>,
 }
 
 /// smallest diverging case per class; rank = (nodes, #decisions, arity vector, salt, api, decisions)
@@ -428,7 +428,7 @@ fn run_unit(ctx: &Ctx, found: &FoundMap, u: &Unit) {
     let mut tnr_mis = 0u64;
     let mut diverging = 0u64;
     let register = u.family == "concrete" && u.salt == 0;
-    spec::for_each_execution(&u.shape, u.api, u.first, |decs, sp| {
+    spec::for_each_execution(&u.shape, u.api, &u.prefix, |decs, sp| {
         if evals % 256 == 0 && ctx.out_of_time() {
             return false;
         }
@@ -512,7 +512,7 @@ struct Bounds {
 
 fn explore(ctx: &Ctx) {
     let b = if ctx.quick() {
-        Bounds { n_single: 6, n_visit: 6, n_rewrite2: 4, salts_single: 14, salts_double: 6, n_subq: 5, n_subq2: 4, salts_subq: 6 }
+        Bounds { n_single: 6, n_visit: 6, n_rewrite2: 4, salts_single: 14, salts_double: 4, n_subq: 5, n_subq2: 4, salts_subq: 4 }
     } else {
         Bounds { n_single: 7, n_visit: 7, n_rewrite2: 5, salts_single: 14, salts_double: 4, n_subq: 6, n_subq2: 5, salts_subq: 6 }
     };
@@ -609,8 +609,16 @@ fn explore(ctx: &Ctx) {
                 for (api, salts) in apis {
                     let salts = if family == "concrete" { 1 } else { salts };
                     for salt in 0..salts {
-                        for first in 0..api.options().len() {
-                            units.push(Unit { family, salt, shape: shape.clone(), api, first });
+                        // work units: fix the first one or (larger trees) two decisions
+                        let k = api.options().len();
+                        for first in 0..k {
+                            if n >= 4 {
+                                for second in 0..k {
+                                    units.push(Unit { family, salt, shape: shape.clone(), api, prefix: vec![first, second] });
+                                }
+                            } else {
+                                units.push(Unit { family, salt, shape: shape.clone(), api, prefix: vec![first] });
+                            }
                         }
                     }
                 }
